@@ -225,6 +225,8 @@ Proof.
   - unfold view_slice_xy. f_equal. f_equal. apply flat_map_ext. intros x. apply map_ext. intros y. apply Hg.
   - unfold view_cell_list.
     assert (flat_map (grid s) l = flat_map (grid t) l) as -> by (apply flat_map_ext; exact Hg). reflexivity.
+  - reflexivity.
+  - reflexivity.
 Qed.
 
 (* every operation: related states give the same result and related states *)
